@@ -183,9 +183,14 @@ def same(a, b):
         return False
 
 
-def call_solver(f):
+def call_solver(f, fn=None, n=0):
+    """one guarded call (CPU budget per call, see C14.call_guarded): a function that ran out of budget once in this worker is
+    not called again (returns a _Skip marker)"""
+    C = base()
+    if fn in C._DEAD:
+        return None, C._Skip()
     try:
-        return f(), None
+        return C.call_guarded(fn, f, n), None
     except (KeyboardInterrupt, SystemExit):
         raise
     except BaseException as e:  # noqa: BLE001 - pyo3 panics derive from BaseException
@@ -201,13 +206,15 @@ def run_present(case, g, idx, lab, fns=("scc", "topo", "condense")):
     t0, o0 = repr(table), repr(order)
     out = []
     for fn in fns:
-        res, exc = call_solver(lambda: F[fn](nodes(), nb))
+        res, exc = call_solver(lambda: F[fn](nodes(), nb), fn, g.n)
+        if isinstance(exc, C._Skip):
+            continue
         if exc is not None:
             o, d = C.exc_obl(exc, g)
             out.append((fn, o, d))
         else:
             out += [(fn, o, d) for o, d in C.CHK[fn](res, g, idx)]
-            res2, exc2 = call_solver(lambda: F[fn](nodes(), nb))
+            res2, exc2 = call_solver(lambda: F[fn](nodes(), nb), fn, g.n)
             if exc2 is not None or not same(res, res2):
                 out.append((fn, "ensures:same-answer-when-the-call-is-repeated",
                             f"first call {res.status.name} {res.solution!r}, the same call again "
@@ -231,7 +238,9 @@ def run_edges_default(case, g):
     idx = C.IDX if case["n"] <= len(C.IDX) else {i: i for i in range(case["n"])}
     out = []
     for fn in F:
-        res, exc = call_solver(lambda: F[fn](case["n"], edges))
+        res, exc = call_solver(lambda: F[fn](case["n"], edges), fn, case["n"])
+        if isinstance(exc, C._Skip):
+            continue
         if exc is not None:
             out.append((fn, "ensures:returns", f"raised {type(exc).__name__}: {exc}"))
             continue
